@@ -21,7 +21,8 @@ type fileHandler struct {
 func (h *fileHandler) Authenticate(ctx context.Context, mqtt ApplicationContext, transport TransportContext) (Principal, error) {
 	usernameHash := fingerprintBytes(mqtt.Username)
 	idx := sort.Search(len(h.db), func(i int) bool { return h.db[i].UsernameHash >= usernameHash })
-	if idx < len(h.db) && h.db[idx].UsernameHash == usernameHash {
+	// several entries may share a username: try each of them
+	for ; idx < len(h.db) && h.db[idx].UsernameHash == usernameHash; idx++ {
 		if h.db[idx].PasswordHash == fingerprintBytes(mqtt.Password) {
 			return Principal{
 				ID:         randomID(),
